@@ -10,6 +10,8 @@ pub struct Case<'a> {
     pub re: &'a Regex,
     pub route: &'a Route,
     pub index: usize,
+    /// built with RegexBuilder::case_insensitive(true) (the monitor should use texts in the other case)
+    pub casei: bool,
 }
 
 pub struct SweepCfg<'a> {
@@ -17,6 +19,9 @@ pub struct SweepCfg<'a> {
     pub backtrack_limit: Option<usize>,
     pub step_cap: Option<u64>,
     pub shadow: bool,
+    /// every `n`-th pattern is also built with RegexBuilder::case_insensitive(true) and handed to
+    /// the monitor a second time (0 = never)
+    pub casei_every: usize,
 }
 
 pub fn sweep(cfg: &SweepCfg<'_>, patterns: &[Node], f: impl Fn(&Case<'_>, &mut Acc) + Sync) -> Acc {
@@ -50,10 +55,29 @@ pub fn sweep(cfg: &SweepCfg<'_>, patterns: &[Node], f: impl Fn(&Case<'_>, &mut A
             Route::Unknown => "route:unknown",
         });
         let _ = hook_take();
-        f(&Case { node: p, pattern: &s, re: &re, route: &rt, index: i }, acc);
+        f(&Case { node: p, pattern: &s, re: &re, route: &rt, index: i, casei: false }, acc);
         let h = acc.take_hooks();
         if h.shadow_faults > 0 {
             acc.violate(Violation::new(cfg.prop, "shadow(C20)", &s, "", 0, "search", "restore/commit discipline".into(), h.first_fault.unwrap_or_default()));
+        }
+        if cfg.casei_every > 0 && i % cfg.casei_every == 0 {
+            let got = compile_with(&s, |b| {
+                b.case_insensitive(true);
+                if let Some(l) = cfg.backtrack_limit {
+                    b.backtrack_limit(l);
+                }
+            });
+            if let Got::Val(re) = got {
+                let rt = route(&re);
+                let n0 = acc.violations.len();
+                acc.count("patterns-also-built-with-case_insensitive(true)");
+                f(&Case { node: p, pattern: &s, re: &re, route: &rt, index: i, casei: true }, acc);
+                let _ = acc.take_hooks();
+                for v in acc.violations.iter_mut().skip(n0) {
+                    v.options = serde_json::json!({"case_insensitive": true, "backtrack_limit": cfg.backtrack_limit});
+                    v.note = format!("{} [regex built with RegexBuilder::case_insensitive(true)]", v.note);
+                }
+            }
         }
     })
 }
